@@ -32,7 +32,25 @@ SCENARIOS = {
     "late_items_flow_control": (False, 2, None, 1.0, 1, [(lambda: slow_items(6, 0.05), 1, True), (lambda: iter([]), 1, True)]),
     "factory_quota_two_calls": (True, 2, 1, 1.0, None, [(lambda: slow_tail(3, 0.5), 1, True), (lambda: iter(range(4)), 1, False)]),
     "factory_quota_bounded": (True, 1, 2, None, 2, [(lambda: iter(range(5)), 1, True), (lambda: slow_tail(2, 0.5), 1, True)]),
+    # D19 (repaired): both workers retire only after the replace thread of the last call has gone (they are slow between
+    # handing over their last result and retiring), the work queue has room for one stop order only
+    "d19_late_retirement": (True, 2, 1, 1, None, [(lambda: iter(range(2)), 1, True)]),
 }
+SLOW_RETIRE = {"d19_late_retirement": 1.0}
+# results far larger than a pipe buffer, `None` and falsy inputs
+SCENARIOS["big_results"] = (False, 2, None, 1.0, 2, [(lambda: iter(range(6)), 1, True), (lambda: iter(range(5)), 2, False)])
+SCENARIOS["factory_big_results"] = (True, 2, 2, 1.0, None, [(lambda: iter(range(6)), 1, True)])
+SCENARIOS["none_inputs"] = (False, 2, None, 1.0, None, [(lambda: iter([0, None, 2, None, None, 5, 0.0]), 2, True),
+                                                        (lambda: iter([None]), 1, False)])
+BIG = 1 << 20
+
+
+def fun(name, x):
+    if name in ("big_results", "factory_big_results"):
+        return (x, bytes([x % 251]) * BIG)
+    if x is None:
+        return None
+    return x * 2 + 1
 
 
 def main(name):
@@ -43,7 +61,19 @@ def main(name):
 
     class W(FunctorWorker):
         def __call__(self, x):
-            return x * 2 + 1
+            return fun(name, x)
+
+    if name in SLOW_RETIRE:
+        class W(W):  # noqa: the countdown of the quota reaching zero takes a while (a slow worker, nothing else)
+            @property
+            def max_chunks_per_worker(self):
+                return self._quota_left
+
+            @max_chunks_per_worker.setter
+            def max_chunks_per_worker(self, v):
+                if v == 0:
+                    time.sleep(SLOW_RETIRE[name])
+                self._quota_left = v
 
     class F(FunctorWorkerFactory):
         def create(self):
@@ -57,9 +87,9 @@ def main(name):
     with pool:
         for mk, chunk, ordered in calls:
             data = list(mk())
-            exp = [x * 2 + 1 for x in data]
+            exp = [fun(name, x) for x in data]
             got = list(pool.imap(mk(), chunk) if ordered else pool.imap_unordered(mk(), chunk))
-            if (got != exp) if ordered else (sorted(got) != sorted(exp)):
+            if (got != exp) if ordered else (sorted(got, key=repr) != sorted(exp, key=repr)):
                 print(f"WRONG {name}: got {got}, expected {exp}")
                 ok = False
     print("DONE" if ok else "FAILED")
